@@ -36,18 +36,27 @@ package preempt
 //@ import common_info "github.com/NVIDIA/KAI-scheduler/pkg/scheduler/api/common_info"
 //@ define sessionJobsOK(ssn *framework.Session) bool = (forall k in ssn.ClusterInfo.PodGroupInfos :: podgroup_info.allTasksOK(ssn.ClusterInfo.PodGroupInfos[k]) && podgroup_info.setsOK(ssn.ClusterInfo.PodGroupInfos[k])) && (forall q in ssn.ClusterInfo.Queues :: ssn.ClusterInfo.Queues[q] != nil)
 
-// Glue around solvers.(*JobSolver).Solve. ASSUMED (trusted), see the note.
-// C06: "Every such eviction is committed together with the bind or nomination of the workload it was made
-// for": the statement handed back with success is the solver's statement and meets the preconditions of
-// (*Statement).Commit. The ghost mark common.failedAttempt records the outcome for the caller's table.
+//@ import solvers "github.com/NVIDIA/KAI-scheduler/pkg/scheduler/actions/common/solvers"
+// One preemptor: the body is verified; only the two facts named by `trust` are assumed (see the notes).
+// C08/C07: "a non-preemptible ... keeps its queue's non-preemptible allocation within deserved quota": a preemptor that the
+// non-preemptible-over-quota callback rejects is not served and no statement is handed back.
+// C03: a preemptor is reported as served only if its gang is satisfied in the state the returned statement describes.
+// C06: "Every such eviction is committed together with the bind or nomination of the workload it was made for": the
+// statement handed back with success is the solver's statement and meets the preconditions of (*Statement).Commit.
+// The ghost mark common.failedAttempt records the outcome for the caller's table of failed jobs.
 //@ func attemptToPreemptForPreemptor
-//@   props C05 C06 C03
-//@   trusted
-//@   note not verified: [successIsCommittable] is not derivable from the contract of (*JobSolver).Solve (its result0 is computed from the job's counters after whole-heap havocs; "solved ==> the returned statement is the open, well-formed, flat log of the last prefix" needs the unmechanised exact-restoration argument of C13). [outcomeRecorded] only defines the ghost mark.
-//@   requires ssn != nil && preemptor != nil
+//@   props C05 C06 C03 C08 C10
+//@   usestable Session.ClusterInfo
+//@   requires ssn != nil && ssn.ClusterInfo != nil && preemptor != nil
+//@   assume podgroup_info.setsOK(preemptor) && podgroup_info.allTasksOK(preemptor)
+//@   note assume setsOK/allTasksOK: data invariant of the snapshot's jobs; the caller's loop cannot carry it through its `modifies *` steps (attempt, Commit) - same convention as AllocateJob
 //@   modifies *
-//@   ensures [successIsCommittable] result0 ==> result1 != nil && framework.commitReady(result1) && framework.wfLog(result1) && framework.flatLog(result1)
-//@   ensures [outcomeRecorded] common.failedAttempt(preemptor) == !result0
+//@   ensures [quotaGate] !old(framework.firstQuotaOK(ssn, preemptor)) ==> !result0 && result1 == nil
+//@   ensures [successMeansGangSatisfied] result0 ==> solvers.gangSat(preemptor)
+//@   trust [successIsCommittable] result0 ==> result1 != nil && framework.commitReady(result1) && framework.wfLog(result1) && framework.flatLog(result1)
+//@   note trust [successIsCommittable]: not derivable from the contract of (*JobSolver).Solve (its result0 is computed from the job's counters after whole-heap havocs; "solved ==> the returned statement is the open, well-formed, flat log of the last prefix" needs the unmechanised exact-restoration argument of C13)
+//@   trust [outcomeRecorded] common.failedAttempt(preemptor) == !result0
+//@   note trust [outcomeRecorded]: definition of the ghost mark (a ghost can only be written by an assumed clause); it carries "this job's attempt just failed" to the precondition [recordsOnlyFailedJobs] of UpdateRepresentative
 //@ end
 
 // C05: "a pending workload obtains capacity by preempting a strictly lower-priority preemptible workload of its
@@ -71,14 +80,16 @@ package preempt
 // C10: no panic on any path (a non-empty order yields a job; the statement is dereferenced only after success).
 //@ func (*preemptAction).Execute
 //@   props C05 C06 C03 C10
-//@   usestable
+//@   usestable MinimalJobRepresentatives.representatives map[common_info.SchedulingConstraintsSignature]*podgroup_info.PodGroupInfo PodGroupInfo.Queue Session.ClusterInfo
 //@   requires ssn != nil && ssn.ClusterInfo != nil && ssn.Config != nil && sessionJobsOK(ssn)
 //@   requires [queueDepthNotZero] ssn.GetJobsDepth("preempt") != 0
 //@   modifies *
 //@   loop 1
 //@     modifies *
-//@     invariant [tablesWellFormed] forall mm map[common_info.QueueID]*common.MinimalJobRepresentatives, q common_info.QueueID :: fresh(mm) && q in mm ==> common.repsWF(mm[q])
-//@     invariant [perQueueScope] forall mm map[common_info.QueueID]*common.MinimalJobRepresentatives, q common_info.QueueID :: fresh(mm) && q in mm ==> common.repsAllInQueue(mm[q], q)
-//@     invariant [tablesSeparate] forall mm map[common_info.QueueID]*common.MinimalJobRepresentatives, q1 common_info.QueueID, q2 common_info.QueueID :: fresh(mm) && q1 in mm && q2 in mm && q1 != q2 ==> mm[q1].representatives != mm[q2].representatives
+//@     invariant [tablesExist] forall q in smallestFailedJobsByQueue :: smallestFailedJobsByQueue[q] != nil && allocated(smallestFailedJobsByQueue[q]) && allocated(smallestFailedJobsByQueue[q].representatives)
+//@     invariant [tablesSeparate] forall q1 in smallestFailedJobsByQueue :: forall q2 in smallestFailedJobsByQueue :: q1 != q2 ==> smallestFailedJobsByQueue[q1].representatives != smallestFailedJobsByQueue[q2].representatives
+//@     invariant [tablesWellFormed] forall q in smallestFailedJobsByQueue :: common.repsWF(smallestFailedJobsByQueue[q])
+//@     invariant [storedJobsExist] forall q in smallestFailedJobsByQueue :: forall k in smallestFailedJobsByQueue[q].representatives :: allocated(smallestFailedJobsByQueue[q].representatives[k])
+//@     invariant [perQueueScope] forall q in smallestFailedJobsByQueue :: common.repsAllInQueue(smallestFailedJobsByQueue[q], q)
 //@ end
 // ---- end exec2 ----
